@@ -141,6 +141,9 @@ FLAVORS = {
              "-fno-sanitize-recover=all", "-fno-omit-frame-pointer"],
     "ubalign": ["clang", "-O1", "-g", "-fsanitize=address,undefined", "-fno-sanitize-recover=all"],
     "plain": ["gcc", "-O2", "-g"],
+    "gcc-O0": ["gcc", "-O0"], "gcc-O1": ["gcc", "-O1"], "gcc-O2": ["gcc", "-O2"], "gcc-O3": ["gcc", "-O3"],
+    "clang-O0": ["clang", "-O0"], "clang-O1": ["clang", "-O1"], "clang-O2": ["clang", "-O2"], "clang-O3": ["clang", "-O3"],
+    "gcc-O3-ubalign": ["gcc", "-O3", "-fsanitize=alignment", "-fno-sanitize-recover=all"],
 }
 
 
